@@ -1,7 +1,10 @@
 (* Model/JarCheck.v — what the C16 harness observes on the real endpoints, and the trace checker that
    re-computes the model's answer (Model/Jar.v) and compares.  Evaluated by vm_compute over generated cases. *)
 From Coq Require Import String.
-From Verif Require Import Lib.Base Lib.PyStr Lib.Crypto Model.Jar.
+From Verif Require Import Lib.Base.
+From Verif Require Import Lib.PyStr.
+From Verif Require Import Lib.Crypto.
+From Verif Require Import Model.Jar.
 Open Scope string_scope.
 
 (* observed outcome of a parse_request *)
@@ -124,3 +127,38 @@ Definition chk_compact (j : list (pystr * list (kty * nat))) (b : cbase) (dp : l
   let '(v, d, t0, tr) := c in chk_case (expand j b dp v, d, t0, tr).
 Definition diag_compact (j : list (pystr * list (kty * nat))) (b : cbase) (dp : list pystr) (c : ccase) : list result :=
   let '(v, d, t0, tr) := c in model_results (expand j b dp v, d, t0, tr).
+
+(* ---- a concrete configuration and requests for the non-vacuity examples of Props/C16.v *)
+Definition ex_jar : list (pystr * list (kty * nat)) :=
+  [([], [(KRsa, 9%nat); (KEc, 10%nat)]);
+   (s_c1, [(KOct, 2%nat); (KRsa, 0%nat); (KEc, 1%nat)]);
+   (s_c2, [(KOct, 5%nat); (KRsa, 3%nat); (KEc, 4%nat)])].
+Definition ex_client (cid red : pystr) (reg : regalg) : client :=
+  {| c_id := cid; c_reg := reg; c_redirect := [red]; c_request_uris := None; c_rtypes := [[s_code]] |}.
+Definition ex_cfg (is_oidc : bool) (reg1 : regalg) : cfg :=
+  {| oidc := is_oidc; has_par := true; methods := [MReqParam; MPublic; MNoneM]; methods_configured := false;
+     hooks := if is_oidc then [HDoRequestUri; HPostParse; HDoRequestUri; HPostParse] else [HDoRequestUri; HPostParse];
+     par_hooks := [HParRequestUri; HPostParse; HPostParse];
+     prov_algs := [s_rs256; s_es256; s_hs256]; ru_supported := true; ttl := 10; jar := ex_jar;
+     clients := [ex_client s_c1 s_r1 reg1; ex_client s_c2 s_r2 RAbsent] |}.
+Definition ex_outer : params :=
+  [(k_client_id, PS_ s_c1); (k_redirect_uri, PS_ s_r1); (k_scope, PL_ [s_openid]); (k_state, PS_ s_out0);
+   (k_response_type, PL_ [s_code])].
+Definition ex_claims (cid red : pystr) : params :=
+  [(k_client_id, PS_ cid); (k_redirect_uri, PS_ red); (k_scope, PL_ [s_openid; s_email]); (k_state, PS_ s_in0);
+   (k_response_type, PL_ [s_code]); (k_iss, PS_ cid)].
+Definition ex_by_value : params := List.app ex_outer [(k_request, PS_ s_jws)].
+Definition ex_urn : pystr := PS "urn:uuid:1".
+Definition ex_by_uri (u : pystr) : params := List.app ex_outer [(k_request_uri, PS_ u)].
+
+(* the object's parameters took effect: accepted, verified object attached, state is the object's *)
+Definition took_effect (o : outcome) : bool :=
+  match o with
+  | Acc r => is_some (r_vr r) && opt_pv_eqb (assoc k_state (r_params r)) (Some (PS_ s_in0))
+  | _ => false
+  end.
+Definition refused (o : outcome) : bool :=
+  match o with ErrResp _ _ _ | Exc _ | AnyRefusal => true | _ => false end.
+Definition outcome_of (x : state * outcome * option pystr) : outcome := snd (fst x).
+Definition authz_results (l : list (state * result)) : list (outcome * option pystr) :=
+  flat_map (fun sr => match snd sr with RAuthz o v => [(o, v)] | _ => [] end) l.
